@@ -7,7 +7,8 @@ from exprgen import sql, col, num, par
 ASSUME = ["one event-time tumbling batch with 3-4 groups closed by a flush row; results observed at a synchronous sink",
           "aggregates count/sum/avg/min/max over a plain column; expression arguments are C03's business",
           "when LIMIT is present the ORDER BY keys are pairwise different across groups (no ties), so 'the first n rows' is unambiguous",
-          "division only by non-zero literals; small integer inputs"]
+          "division only by non-zero literals; small integer inputs",
+          "an addition with a NULL aggregate operand (a group whose inputs are all NULL) is screened out of the seeded programs: pinned finding AggNullPlusIsString"]
 FNS = ["sum", "avg", "min", "max", "count"]
 
 
@@ -88,6 +89,21 @@ def pyeval(e, env):
     return {"+": a + b, "-": a - b, "*": a * b}[e["op"]]
 
 
+def null_plus(e, env):
+    """does evaluating e hit  NULL + x  or  x + NULL ?"""
+    if not isinstance(e, dict) or "t" not in e:
+        return False
+    if e["t"] == "bin":
+        if e["op"] == "+" and (pyeval(e["a"], env) is None or pyeval(e["b"], env) is None):
+            return True
+        return null_plus(e["a"], env) or null_plus(e["b"], env)
+    if e["t"] in ("par",):
+        return null_plus(e["a"], env)
+    if e["t"] in ("cmp", "and"):
+        return null_plus(e["a"], env) or null_plus(e["b"], env)
+    return False
+
+
 def mk(rng, nsel, having_kind, norder, limit, distinct):
     groups = ["a", "b", "c", "d"][:rng.choice([3, 3, 4])]
     rows, rid = [], 0
@@ -124,6 +140,11 @@ def mk(rng, nsel, having_kind, norder, limit, distinct):
             env = {k: pyagg(d["fn"], [r.get(d["arg"]) for r in rows[:n] if r["g"] == g]) for k, d in defs.items()}
             keyvals.append(pyeval(strip(ItemE(sel, order[0]["al"])), env))
         if any(v is None for v in keyvals) or len(set(keyvals)) != len(keyvals):
+            return None
+    # a '+' with a NULL aggregate operand (all inputs of the group NULL) is the pinned finding AggNullPlusIsString: screen it out
+    for g in set(r["g"] for r in rows[:n]):
+        env = {k: pyagg(d["fn"], [r.get(d["arg"]) for r in rows[:n] if r["g"] == g]) for k, d in defs.items()}
+        if any(null_plus(strip(it["e"]), env) for it in sel) or (having is not None and null_plus(strip(having), env)):
             return None
     txt = "SELECT " + ("DISTINCT " if distinct else "") + ("g, " if gsel else "") + ", ".join("%s AS %s" % (agg_sql(it["e"]), it["al"]) for it in sel)
     txt += " FROM stream GROUP BY g, TumblingWindow('10s')"
